@@ -17,7 +17,7 @@ RULE = (
     '7-point level menu x 5 value patterns (rising, flat, falling, zig-zag, step with overshoot) '
     'x integration limits drawn from the position classes {far below, just '
     'below, first knot, inside each segment, each knot, last knot, just '
-    'above, far above}: all ordered pairs and all ordered triples, through '
+    'above, far above, exactly 0}: all ordered pairs and all ordered triples, through '
     'the real SplineSpecificYield.  Every one of the 3 x 3 branch '
     'combinations of Spline.integrate (each limit below / inside / above '
     'the knot range) occurs for every knot set.  Oracle: value at each knot, '
@@ -70,6 +70,8 @@ def positions(knots):
         if b != hi:
             out.append(b)
     out += [hi, hi + 0.5, hi + 1000.0]
+    # exactly zero (the peat surface) is a limit like any other
+    out += [0.0, -0.0]
     return out
 
 
@@ -77,7 +79,7 @@ def spaces(tier):
     sets = knot_sets(tier)
     index = []
     for si, subset in enumerate(sets):
-        npos = 2 * len(subset) + 3
+        npos = 2 * len(subset) + 5
         for pattern in PATTERNS:
             for a in range(npos):
                 index.append((si, pattern, a))
@@ -117,6 +119,20 @@ def run_case(case):
                 if not abs(float(sy(k)) - v) <= 1e-12:
                     viol.append(('knot-value', 'Sy(%r) = %r, knot value %r'
                                  % (k, float(sy(k)), v)))
+            # arrays in ascending, descending and mixed order must agree
+            # with scalar evaluation element by element
+            import numpy as np
+            for order in (sorted(pos), sorted(pos, reverse=True),
+                          pos[1::2] + pos[0::2]):
+                arr = [float(v_) for v_ in sy(np.array(order))]
+                one = [float(sy(v_)) for v_ in order]
+                lst = [float(v_) for v_ in sy(list(order))]
+                if any(not abs(a_ - b_) <= 1e-12 for a_, b_ in zip(
+                        arr + lst, one + one)):
+                    viol.append(('array-and-scalar-disagree',
+                                 'levels %r: array %r, scalar %r'
+                                 % (order[:5], arr[:5], one[:5])))
+                    break
             for x, v in ((knots[0] - 0.5, values[0]),
                          (knots[0] - 1000.0, values[0]),
                          (knots[-1] + 0.5, values[-1]),
